@@ -148,6 +148,10 @@ pub enum Op {
     Ins { ks: u8, k: u8, v: u8 },
     Rem { ks: u8, k: u8 },
     Batch(Vec<Item>),
+    /// batch with explicit durability: 0 = None, 1 = Buffer, 2 = SyncData, 3 = SyncAll
+    BatchD(Vec<Item>, u8),
+    /// write transaction with explicit durability
+    TxD(Vec<Item>, u8),
     /// committed write transaction (single-writer or optimistic DB kinds)
     Tx(Vec<Item>),
     Clear { ks: u8 },
@@ -205,6 +209,18 @@ impl std::fmt::Display for Op {
             Op::Tx(items) => write!(
                 f,
                 "tx [{}]",
+                items.iter().map(item_str).collect::<Vec<_>>().join(" ")
+            ),
+            Op::BatchD(items, d) => write!(
+                f,
+                "batch:{} [{}]",
+                ["none", "buffer", "syncdata", "syncall"][*d as usize],
+                items.iter().map(item_str).collect::<Vec<_>>().join(" ")
+            ),
+            Op::TxD(items, d) => write!(
+                f,
+                "tx:{} [{}]",
+                ["none", "buffer", "syncdata", "syncall"][*d as usize],
                 items.iter().map(item_str).collect::<Vec<_>>().join(" ")
             ),
             Op::Clear { ks } => write!(f, "clear {}", ksn(*ks)),
@@ -296,6 +312,12 @@ impl Op {
             "batch" => Op::Batch(list(rest).iter().map(|s| parse_item(s)).collect::<Result<_, _>>()?),
             "tx" => Op::Tx(list(rest).iter().map(|s| parse_item(s)).collect::<Result<_, _>>()?),
             "clear" => Op::Clear { ks: parse_ks(rest)? },
+            h if h.starts_with("batch:") || h.starts_with("tx:") => {
+                let (kind, d) = h.split_once(':').unwrap();
+                let dur = ["none", "buffer", "syncdata", "syncall"].iter().position(|x| *x == d).ok_or("bad durability")? as u8;
+                let items: Vec<Item> = list(rest).iter().map(|s| parse_item(s)).collect::<Result<_, _>>()?;
+                if kind == "batch" { Op::BatchD(items, dur) } else { Op::TxD(items, dur) }
+            }
             "ingest" => {
                 let (ks, r) = rest.split_once(' ').ok_or("ingest ks [..]")?;
                 let mut items = vec![];
@@ -622,7 +644,7 @@ impl World {
         if r.is_ok() {
             let touched: Vec<u8> = match op {
                 Op::Ins { ks, .. } | Op::Rem { ks, .. } | Op::Clear { ks } => vec![*ks],
-                Op::Batch(items) | Op::Tx(items) => {
+                Op::Batch(items) | Op::Tx(items) | Op::BatchD(items, _) | Op::TxD(items, _) => {
                     let mut v: Vec<u8> = items.iter().map(|i| i.ks).collect();
                     v.sort();
                     v.dedup();
@@ -664,6 +686,58 @@ impl World {
                     }
                 }
                 b.commit().map_err(|x| e("batch.commit", x))?;
+                for it in items {
+                    self.mitem(it);
+                }
+            }
+            Op::BatchD(items, dur) => {
+                let d = match dur {
+                    0 => None,
+                    n => Some(persist_mode(n - 1)),
+                };
+                let mut b = self.dbi().batch().durability(d);
+                for it in items {
+                    match it.v {
+                        Some(v) => b.insert(&self.ks[&it.ks], KEYS[it.k as usize], self.val(it.ks, v)),
+                        None => b.remove(&self.ks[&it.ks], KEYS[it.k as usize]),
+                    }
+                }
+                b.commit().map_err(|x| e("batch.commit", x))?;
+                for it in items {
+                    self.mitem(it);
+                }
+            }
+            Op::TxD(items, dur) => {
+                let d = match dur {
+                    0 => None,
+                    n => Some(persist_mode(n - 1)),
+                };
+                match self.db.as_ref().expect("db") {
+                    Db::Plain(_) => return Err(Violation::new("harness", "tx on plain db")),
+                    Db::Sw(dbx) => {
+                        let mut tx = dbx.write_tx().durability(d);
+                        for it in items {
+                            let h = dbx.keyspace(ksn(it.ks), KeyspaceCreateOptions::default).map_err(|x| e("tx keyspace", x))?;
+                            match it.v {
+                                Some(v) => tx.insert(&h, KEYS[it.k as usize], self.val(it.ks, v)),
+                                None => tx.remove(&h, KEYS[it.k as usize]),
+                            }
+                        }
+                        tx.commit().map_err(|x| e("tx.commit", x))?;
+                    }
+                    Db::Occ(dbx) => {
+                        let mut tx = dbx.write_tx().map_err(|x| e("write_tx", x))?.durability(d);
+                        for it in items {
+                            match it.v {
+                                Some(v) => tx.insert(&self.ks[&it.ks], KEYS[it.k as usize], self.val(it.ks, v)),
+                                None => tx.remove(&self.ks[&it.ks], KEYS[it.k as usize]),
+                            }
+                        }
+                        if tx.commit().map_err(|x| e("tx.commit", x))?.is_err() {
+                            return Err(Violation::new("op_error", "blind optimistic tx reported Conflict"));
+                        }
+                    }
+                }
                 for it in items {
                     self.mitem(it);
                 }
